@@ -218,6 +218,8 @@ def check_call(ev, contract, func, args, check_frame=True):
     env1['result'] = result
     env1['fresh_loc'] = lambda x: not any(isinstance(x, np.ndarray) and x.size and a.size and np.shares_memory(x, a) for a in inputs)
     for k, e in enumerate(contract.ensures):
+        if getattr(contract, 'ghost', None) and any(isinstance(x_, ast.Name) and x_.id in contract.ghost for x_ in ast.walk(ast.parse(e.strip(), mode='eval'))):
+            continue      # names a local of the function (a witness): decided deductively only
         try:
             ok = bool(ev.eval(e, env1, env0))
         except Exception as ex:
